@@ -4,7 +4,7 @@ from . import static
 PROPS = {
     "C01": {
         "level": "proof",
-        "static": [static.c01_frame, static.lean_lemmas, static.intern_key_order],
+        "static": [static.c01_frame, static.lean_lemmas, static.intern_key_order, static.alloc_sites],
         "trusted": ["Unit.__from_json__: factors read from a JSON document are assumed to be in normal form (as produced by __json__)"],
         "explanation": "C01 is the table invariant I_U.C01-dimension-is-fold; every Unit(...) call site carries it as a precondition "
                        "(obligation call-pre:Unit#k:C01-dimension-is-fold), every function that allocates units re-establishes I_U, and a static "
@@ -12,7 +12,7 @@ PROPS = {
     },
     "C02": {
         "level": "proof",
-        "static": [static.lean_lemmas, static.intern_key_order, static.core_state, static.process_state],
+        "static": [static.lean_lemmas, static.intern_key_order, static.alloc_sites, static.core_state, static.process_state],
         "trusted": ["mixed-base prefix arithmetic: exponent identities proved over the reals with uninterpreted log (A4); the 1e-9 float tolerance is bounded only",
                     "group laws not completed by the solver and therefore bounded only: prefix associativity, unit associativity, unit neutral element, "
                     "unit exponent sum, unit root-of-power (see contracts/c_lemmas.py BOUNDED_ONLY)"],
@@ -140,7 +140,7 @@ PROPS = {
     },
     "C15": {
         "level": "other", "manifest_level": "other",
-        "static": [static.memo_args, static.core_state, static.process_state],
+        "static": [static.memo_args, static.core_state, static.process_state, static.alloc_sites, static.intern_key_order],
         "trusted": ["pickle/copy call cls.__new__(cls, *args, **kwargs) with __getnewargs_ex__ and restore slots (A10)", "json applies object_hook bottom-up (A10)"],
         "explanation": "Re-entry of __getnewargs_ex__/__from_json__ into the interning constructors is covered by the constructor contracts of C01/C02 (same key => same "
                        "object); the round trips themselves are checked natively over every registered dimension, prefix and unit and random compounds/quantities x 4 codecs. "
@@ -156,7 +156,7 @@ PROPS = {
     },
     "C20": {
         "level": "proof", "manifest_level": "other",
-        "static": [static.c20_locks, static.c20_publication, static.memo_args, static.core_state, static.process_state, static.intern_key_order],
+        "static": [static.c20_locks, static.c20_publication, static.memo_args, static.core_state, static.process_state, static.intern_key_order, static.alloc_sites],
         "trusted": ["threading.RLock provides mutual exclusion; dict and lru_cache operations are atomic enough under the GIL (A10)",
                     "double initialisation of one fresh object by two threads writes identical values (outside the statement)"],
         "explanation": "Lock discipline (static, closed obligations): in each interning __new__ the registry test, the allocation and the insertion lie in one critical section "
